@@ -296,7 +296,9 @@ namespace details {
 			booster::shared_ptr<cppcms::impl::cgi::connection> c = conn_.lock();
 			if(!c)
 				return -1;
-			eof_send_ = send_eof;
+			// once the end of the response has been announced it stays announced: a later flush
+			// (async_flush_output after finalize()) must not send the terminator a second time
+			eof_send_ = eof_send_ || send_eof;
 			// make sure flush goes all way to write to flush the buffers
 			if(raw_mode_ && !raw_headers_.headers_done()) {
 				auto out_data = out.get();
